@@ -216,11 +216,19 @@ def run(tier, seed, t0):
             scenario(e3, ops, nm, fresh)
         except _e3.ENC_ERRORS as ex:
             e3.error(nm, "MIR->SMT encoding of metrics_util::registry", ex)
-    finish("C06", tier, seed, list(e3.res.obligations), t0, ASSUME + ["E3 callee models: " + ", ".join(sorted(e3.models))], sorted(e3.functions),
+    # the registry finds a key by Key::get_hash() and then by Eq: "keys are compared by key equality regardless of how they were built"
+    # needs equal keys to hash alike. Decided on the compiled code (Kani); the full Eq/Ord/Hash agreement is C03's subject.
+    import kani, c03
+    hs = [h for h in c03.HARNESSES if h.name in ("c03_same_name_two_labels", "c03_extra_labels_hash")]
+    obs = list(e3.res.obligations) + kani.run_group("core", hs, "quick", hooks=True, stubbing=True)
+    finish("C06", tier, seed, obs, t0, ASSUME + ["E3 callee models: " + ", ".join(sorted(e3.models))], sorted(e3.functions),
            explanation="MIR->SMT partial-order encoding of Registry::{get_or_create_*, get_*, delete_*} over sharded abstract maps with a lock-word model of RwLock")
 
 
 def replay(path):
+    if path.endswith((".vals", ".random")):
+        import _kprop
+        return _kprop.replay(path)
     import replay_e3
     status, out = replay_e3.run("c06", path)
     print(status, out)
